@@ -279,3 +279,63 @@ func cmdChild() {
 		}
 	}
 }
+
+// ---------------------------------------------------------------- histories
+
+func init() { extraCmds["life"] = cmdLife }
+
+// cmdLife runs histories of operations on shared objects (in-process; one child per batch is not
+// needed here because a hang is itself the observation: every history runs under a watchdog).
+func cmdLife(args []string) {
+	fs := flag.NewFlagSet("life", flag.ExitOnError)
+	in := fs.String("in", "", "histories (JSON array)")
+	out := fs.String("out", "-", "trace output")
+	reps := fs.Int("reps", 2, "executions per history")
+	seed := fs.Int64("seed", 1, "seed")
+	wd := fs.Duration("watchdog", 5*time.Second, "per-history watchdog")
+	fs.Parse(args)
+	var hs []scn.History
+	b, err := os.ReadFile(*in)
+	if err != nil {
+		die("%v", err)
+	}
+	if err := json.Unmarshal(b, &hs); err != nil {
+		die("parse %s: %v", *in, err)
+	}
+	f, err := os.Create(*out)
+	if err != nil {
+		die("%v", err)
+	}
+	defer f.Close()
+	w := bufio.NewWriterSize(f, 1<<20)
+	defer w.Flush()
+	enc := json.NewEncoder(w)
+	n, timeouts := 0, 0
+	for _, h := range hs {
+		for k := 0; k < *reps; k++ {
+			done := make(chan []interface{}, 1)
+			r := rand.New(rand.NewSource(*seed*7919 + int64(h.Hid)*31 + int64(k)))
+			hh := h
+			go func() { done <- scn.RunHistory(hh, r) }()
+			select {
+			case evs := <-done:
+				for _, e := range evs {
+					enc.Encode(e)
+				}
+			case <-time.After(*wd):
+				// the history hangs (e.g. a lock that is never released): report what is certain
+				timeouts++
+				s := scn.Scenario{Sid: h.Hid, Mode: "call", Family: h.Family}
+				if len(h.Targets) > 0 {
+					s.Target = h.Targets[0]
+				}
+				s.Convs = h.Convs
+				s.Normalize()
+				enc.Encode(scn.EvReset{Ev: "reset", Sid: h.Hid, Rep: k, Scn: s})
+				enc.Encode(scn.EvRet{Ev: "ret", Kind: "timeout", Missing: []scn.Label{}, EInputs: []scn.Label{}, EConvs: []int{}, Outs: []int{}, Phase: 1, Detail: "history did not finish"})
+			}
+			n++
+		}
+	}
+	fmt.Fprintf(os.Stderr, "drive life: histories=%d executions=%d timeouts=%d\n", len(hs), n, timeouts)
+}
